@@ -224,6 +224,24 @@ def _threshold_body(ctx, d):
                 f"{' (padded/truncated to the right shape)' if padded else ''}; the specification is malformed ({info}) and must be rejected",
             )
 
+    # the same specification OBJECT normalised again for another number of labels (a scenario file's thresholds are shared
+    # by several configurations): the outcome must be what the pristine specification demands, whatever happened before
+    if isinstance(spec, list):
+        shared = copy.deepcopy(spec)
+        _try(set_thresholds, shared, n, nest)
+        for n2 in (n + 1, n + 2):
+            ok2, info2 = R.verdict(spec, n2, nest)
+            accb, outb = _try(set_thresholds, shared, n2, nest)
+            if ok2:
+                ctx.cls("renormalised_other_n/accept")
+                ctx.require(
+                    accb and any(R.same(outb, f) for f in info2),
+                    f"normalisation-depends-on-earlier-call:{mode}",
+                    lambda: f"set_thresholds(spec, {n2}, {nest}) after set_thresholds(spec, {n}, {nest}) on the same object {_short(spec)} gave {_short(outb)} ({type(outb).__name__}); expected {_short(info2)}",
+                )
+            elif accb:
+                ctx.violate(f"malformed-threshold-accepted-after-earlier-call:{mode}:{info2}", f"set_thresholds(spec, {n2}, {nest}) after a call with {n} labels on the same object {_short(spec)} returned {_short(outb)}")
+
     # the two validity predicates, called the way CriticalObjectFilterConfig / set_thresholds call them
     if isinstance(spec, list):
         chk = check_nested_thresholds if nest else check_thresholds
